@@ -107,7 +107,8 @@ def _apply_elem_wise_func(inputs: tuple[ArrayOrScalarT, ...],
     bindings: dict[str, Array] = {}
     for index, inp in enumerate(inputs):
         if isinstance(inp, Array):
-            if inp.dtype.kind not in ["f", "c"]:
+            if pt_namespace == "c99." and inp.dtype.kind not in ["f", "c"]:
+                # (zeros_like / ones_like take arrays of any type)
                 raise ValueError("only floating-point or complex "
                         "arguments supported")
 
